@@ -9,7 +9,7 @@ for f in sorted(glob.glob(os.path.join(os.path.dirname(__file__), "..", "seeded"
     for c, v in m["ran"]["checks"].items():
         kinds += [k.replace("total ", "") for k in v["violation_kinds"]][:3]
     rows.append("| %s | %s | %s | %s | %s | %s |" % (
-        m["id"], m["property"], (m.get("what") or "").replace("|", "/"),
+        m["id"], m["property"], ((m.get("what") or "") + " — needs: " + (m.get("needs_to_manifest") or "")).replace("|", "/"),
         "yes" if m["valid_seeded_change"] else "NO",
         ", ".join(m["caught_by"]) or "**missed**", "; ".join(kinds)[:110]))
 print("| id | property | change (needs to manifest) | valid (demo fails, 663 tests pass) | caught by (tier in meta.json) | violation kinds reported |")
